@@ -8,7 +8,7 @@ def parseSql : String → Option Sql
 def parseSvcReq : String → Option SvcReq
   | "stop" => some .stop | "start" => some .start | "pause" => some .pause | "resume" => some .resume
   | "restart" => some .restart | "disable" => some .disable | "enable" => some .enable | "fix" => some .fix
-  | "compromise" => some .compromise | _ => none
+  | "compromise" => some .compromise | "scan" => some .scan | _ => none
 
 def optNat (s : String) : Option (Option Nat) := parseOpt String.toNat? s
 
@@ -27,9 +27,9 @@ def showNats (l : List Nat) : String := "[" ++ ",".intercalate (l.map toString) 
 def digest (st : State) : String :=
   let s := st.srv
   let conns := "[" ++ ",".intercalate (s.conns.map (fun c => s!"{c.id}@{c.owner}")) ++ "]"
-  let ftpc := match s.ftpc with | some f => showSvc f | none => "-"
+  let ftpc := match s.ftpc with | some f => showSvc f ++ (if s.ftpcFix.isSome then ":FIXING" else ":GOOD") | none => "-"
   let svc := if s.installed then s!"{showSvc s.op},{showH s.health}" else "absent,absent"
-  let srv := s!"srv:{showP s.node.st},{svc},{showF s.file},{showF s.downloads},{conns},ftpc={ftpc},port={showBool s.listening}"
+  let srv := s!"srv:{showP s.node.st},{svc},{showF s.file},{showF s.downloads},{conns},ftpc={ftpc},port={showBool s.listening},dl={showBool s.dlFolder}"
   let bk := s!"bk:{showP st.bk.node.st},{showSvc st.bk.ftps},{showF st.bk.stored}"
   let cl := st.clients.map (fun c =>
     let dm := if c.dmInstalled then s!",dm{c.dmStage}" else ""
@@ -41,12 +41,29 @@ def digest (st : State) : String :=
 def showOut (o : Out) : String :=
   let res := match o.res with | none => "-" | some b => showBool b
   let sts := ",".intercalate (o.statuses.filterMap (fun x => x.map toString))
-  s!"res={res} h={showOpt toString o.handle} st=[{sts}] rej={showBool o.rejected}"
+  let rej := if o.raised then "R" else showBool o.rejected
+  s!"res={res} h={showOpt toString o.handle} st=[{sts}] rej={rej}"
+
+def parseJunk : String → Option Junk
+  | "notdict" => some .notDict | "notype" => some .noType | "unknown" => some .unknownType | _ => none
+
+def parseFH : String → Option FHealth
+  | "GOOD" => some .good | "COMPROMISED" => some .compromised | "CORRUPT" => some .corrupt | _ => none
 
 def parseOp : List String → Option Op
   | ["connect", i] => i.toNat?.map .connect
   | ["rq", i, cid, q] => do some (.rawQuery (← i.toNat?) (← optNat cid) (← parseSql q))
   | ["rd", i, cid] => do some (.rawDisconnect (← i.toNat?) (← optNat cid))
+  | ["rj", i, k] => do some (.rawJunk (← i.toNat?) (← parseJunk k))
+  | ["dl", "del"] => some (.dl .delete)
+  | ["dl", "cor"] => some (.dl .corrupt)
+  | ["dl", "rep"] => some (.dl .repair)
+  | ["dl", "fodel"] => some (.dl .folderDelete)
+  | ["dl", "plant", h] => (parseFH h).map (fun h => .dl (.plant h))
+  | ["svcin"] => some (.svcInstall none)
+  | ["svcin", pw, bk] => do some (.svcInstall (some ((← optNat pw), (← parseBool bk))))
+  | ["co", k] => k.toNat?.map .co
+  | ["adm", "ftpcin", c] => (parseBool c).map (fun c => .admin (.ftpcInstall c))
   | ["hq", h, q] => do some (.hQuery (← h.toNat?) (← parseSql q))
   | ["hd", h] => h.toNat?.map .hDisconnect
   | ["nc", i] => i.toNat?.map .nConnect
@@ -73,6 +90,7 @@ def parseOp : List String → Option Op
   | ["adm", "bkcfg", b] => (parseBool b).map (fun b => .admin (.bkcfg b))
   | ["adm", "coin"] => some (.admin .coInstall)
   | ["adm", "coun"] => some (.admin .coUninstall)
+  | ["adm", "corun"] => some (.admin .coRun)
   | ["dm", i, q, sc, ak, via] => do some (.dm (← i.toNat?) (← parseSql q) (← parseBool sc) (← parseBool ak) (← parseBool via))
   | ["rsx", i, q] => do some (.ransomReq (← i.toNat?) (← parseSql q))
   | ["fdel"] => some .fileDelete
